@@ -3,11 +3,16 @@ import MuduoVerif.Proofs.ClientIter
 namespace MuduoVerif.Client
 open MuduoVerif.Gen.Client
 
-/-- the property's scope guard for `connect()`: no attempt in progress, no connection, no pending
-retry timer, no `connect()` of another thread still queued -/
-def connectOk (c : C) : Prop :=
-  c.cstate ≠ .kConnecting ∧ c.connection = none ∧ nRetry c.timers = 0 ∧ .startCycle ∉ c.pending
-instance (c : C) : Decidable (connectOk c) := by unfold connectOk; infer_instance
+/-- the property's scope guard for `connect()`: no attempt in progress, no connection, no `connect()` of another thread
+still queued, and no pending retry timer - except the timer of a cycle that `stop()` has ended (`connect_` is false; the
+loop has not run `stop()`'s functor yet, which would have cancelled it): `connect()` on the loop thread is then inside
+the property (F33: the new cycle cancels the stale timer).  [From another thread in that same window - `stop()`'s functor
+still queued, the stopped cycle's timer still armed - `connect()` stays outside: the stale timer may fire before the two
+queued functors run, and the invariant `Mid.a9` (no attempt while a `connect()` is queued) does not cover that.] -/
+def connectOk (c : C) (w : Who) : Prop :=
+  c.cstate ≠ .kConnecting ∧ c.connection = none ∧ (nRetry c.timers = 0 ∨ (w = .loop ∧ c.cConnect = false)) ∧
+  .startCycle ∉ c.pending
+instance (c : C) (w : Who) : Decidable (connectOk c w) := by unfold connectOk; infer_instance
 
 /-- the user gives up a reference to a connection only if it is down or somebody else still holds it
 (`TcpConnection`'s own contract: its destructor asserts `kDisconnected`) -/
@@ -18,7 +23,7 @@ instance (c : C) : Decidable (dropOk c) := by unfold dropOk; infer_instance
 
 /-- which inputs the theorems cover in state `c` -/
 def okIn (c : C) : In → Prop
-  | .connect _ => c.clientAlive = true ∧ connectOk c
+  | .connect w => c.clientAlive = true ∧ connectOk c w
   | .disconnect _ => c.clientAlive = true
   | .stop _ => c.clientAlive = true
   -- a client that reconnects by itself must not be told `connect()` by its DOWN callback as well (two attempts)
@@ -54,14 +59,10 @@ theorem bnd_chan {c : C} (hi : Mid c [] true) (hnc : c.cstate ≠ .kConnecting) 
       exact absurd this (by simpa using hi.a16 rfl)
     · exact absurd (hi.a1 hon) hnc
 
-theorem userConnect_mid (c : C) (w : Who) (hi : Mid c [] true) (hal : c.clientAlive = true) (hok : connectOk c) :
+theorem userConnect_mid (c : C) (w : Who) (hi : Mid c [] true) (hal : c.clientAlive = true) (hok : connectOk c w) :
     Mid (userConnect c w) [] true := by
   obtain ⟨hnc, hcn, hnt, hns⟩ := hok
   have hch := bnd_chan hi hnc
-  have hna : ¬ attempting c.cstate c.timers := by
-    rintro (h | h)
-    · exact hnc h
-    · omega
   have htr := hi.tr.gConnect hal
   have hnr : Task.resetChannel ∉ c.pending := hi.a16 rfl
   have h1 : Mid { c with tConnect := true, cConnect := true, stopReq := false, trace := c.trace ++ [.ghost .connect] } [] true := by
@@ -73,8 +74,16 @@ theorem userConnect_mid (c : C) (w : Who) (hi : Mid c [] true) (hal : c.clientAl
   cases w with
   | loop =>
     simp only
-    exact startCycle_mid _ [] [] true (.inl rfl) h1 hch hcn hna (by simpa using hns) (fun _ => hal)
+    exact startCycle_mid' _ [] [] true (.inl rfl) h1 hch hcn hnc (by simpa using hns) (fun _ => hal)
   | foreign =>
+    have hnt : nRetry c.timers = 0 := by
+      rcases hnt with h | h
+      · exact h
+      · exact absurd h.1 (by decide)
+    have hna : ¬ attempting c.cstate c.timers := by
+      rintro (h | h)
+      · exact hnc h
+      · omega
     simp only
     unfold enqueue
     have hcnt : c.pending.count Task.startCycle = 0 := List.count_eq_zero.mpr hns
